@@ -18,6 +18,7 @@ const (
 	reqWork                              /* goroutine is currently working on it */
 	reqResponded                         /* response is already produced */
 	reqSaved                             /* no response was produced after the request is worked on */
+	reqCancelled                         /* the request was flushed when it was responded: no reply, no effect */
 )
 
 var Eunknownfid error = &Error{"unknown fid", EINVAL}
@@ -331,8 +332,19 @@ func (req *SrvReq) Process() {
 func (req *SrvReq) PostProcess() {
 	srv := req.Conn.Srv
 
+	req.Lock()
+	cancelled := (req.status & reqCancelled) != 0
+	req.Unlock()
+
 	/* call the post-handlers (if needed) */
-	switch req.Tc.Type {
+	/* a cancelled request sends no reply, so it must not take effect either:
+	   its Rc may be unset or still hold the reply of the Fcall's previous use */
+	tctype := req.Tc.Type
+	if cancelled {
+		tctype = 0
+	}
+
+	switch tctype {
 	case Tauth:
 		srv.authPost(req)
 
@@ -387,6 +399,9 @@ func (req *SrvReq) Respond() {
 	status := req.status
 	req.status |= reqResponded
 	req.status &= ^reqWork
+	if (status & (reqResponded | reqFlush)) == reqFlush {
+		req.status |= reqCancelled
+	}
 	req.Unlock()
 
 	if (status & reqResponded) != 0 {
